@@ -173,6 +173,16 @@ func c07Exec(op string) (string, *Violation) {
 		tseed, _ := strconv.ParseUint(f[4], 10, 64)
 		blocks, _ := strconv.Atoi(f[5])
 		data, ends, total := c07BigFile(blocks)
+		if len(f) > 6 && f[6] == "resumed" {
+			// a resumed scan: the stream starts with a data block (the reader goroutine hands it to decoder 0
+			// with a bare send before its loop)
+			h := ends[0]
+			data = data[h:]
+			ends = ends[1:]
+			for i := range ends {
+				ends[i] -= h
+			}
+		}
 		cr := &countReader{r: bytes.NewReader(data)}
 		ctx, cancel := context.WithCancel(context.Background())
 		defer cancel()
@@ -377,7 +387,14 @@ func c07Gen(r *Rng, tier string, emit func(string)) {
 		if r.Chance(10) {
 			k = blocks*3 + r.Intn(3) // up to and beyond the end
 		}
-		emit(fmt.Sprintf("stop %d %d %s %d %d", []int{1, 2, 3, 4, 8, 16}[r.Intn(6)], k, hows[r.Intn(3)], r.U64()>>1, blocks))
+		resumed := ""
+		if r.Chance(35) {
+			resumed = " resumed"
+			if r.Chance(40) {
+				k = r.Intn(3) // stop at once: the first block may still be in the reader's hands
+			}
+		}
+		emit(fmt.Sprintf("stop %d %d %s %d %d%s", []int{1, 2, 3, 4, 8, 11, 16, 32}[r.Intn(8)], k, hows[r.Intn(3)], r.U64()>>1, blocks, resumed))
 		nobj := 40
 		kx := r.Intn(nobj + 3)
 		emit(fmt.Sprintf("xstop %d %s %d", kx, hows[r.Intn(3)], nobj))
